@@ -23,6 +23,20 @@ CLAIMS = {
                 'clang 14 AST/CFG, the dbusfacts extractor, the rule tables in rules/C03.py.',
         'design': 'DESIGN.md section 3, C03',
     },
+    'C13': {
+        'technique': 'static analysis: path-sensitive must-pass-through of the `count >= limit` comparison '
+                     '(operator, operand order and limit getter checked on the expression tree), counter/list '
+                     'coupling per basic block, who-writes scans, call-graph reachability of release paths',
+        'text': 'Decides that each of the six limited mutators (AddMatch, RequestName, pending replies, Hello: '
+                'completed and per-user, accept: incomplete) is reachable only after `count >= limit` against its '
+                'own configured limit was refuted, that the exceeded edge sets LimitsExceeded and mutates nothing, '
+                'that every counter moves by one exactly where its list gains/loses an element, and that the '
+                'maximum message size reaches every accepted connection. Covers every path incl. error edges.',
+        'note': NOT_DECIDED_COMMON + 'Not decided: histories (that freed capacity is reusable under every '
+                'interleaving), arithmetic inside adjust_connections_for_uid. Trusted: clang 14 AST/CFG, extractor, '
+                'rule tables in rules/C13.py.',
+        'design': 'DESIGN.md section 3, C13',
+    },
 }
 
 NOT_APPLICABLE = {
